@@ -1122,7 +1122,7 @@ static int ec_source(char *loc, char *cmd, char *arg, char *txt)
 	char *path = arg[0] ? ex_pathexpand(arg, 1) : ex_path();
 	char buf[1 << 10];
 	struct sbuf *sb;
-	int fd = path[0] ? open(path, O_RDONLY) : -1;
+	int fd = path && path[0] ? open(path, O_RDONLY) : -1;
 	long nr;
 	if (fd < 0)
 		return 1;
